@@ -238,20 +238,21 @@ def probe_object_reuse(inp: Dict[str, Any]) -> Dict[str, Any]:
     from seqm.seqm_functions.constants import Constants
 
     sp = esh.settings(method=inp["method"], eps=1e-9, converger=inp.get("converger", [1]), analytical=inp.get("analytical"))
-    sp["elements"] = [0] + sorted({z for n in inp["seq"] for z in esh.GEOMS[n][0]})
+    # an entry of `seq` is a molecule name or a "+"-joined batch of names
+    sp["elements"] = [0] + sorted({z for n in inp["seq"] for part in n.split("+") for z in esh.GEOMS[part][0]})
     es = Electronic_Structure(sp)
     const = Constants()
     outs = []
     bad = []
     for nm in inp["seq"]:
-        s, x, ch, mu = esh.batch([nm])
+        s, x, ch, mu = esh.batch(nm.split("+"))
         with contextlib.redirect_stdout(io.StringIO()):
             mol = Molecule(const, sp, torch.as_tensor(x), torch.as_tensor(s))
             es(mol)
         outs.append((nm, mol.Etot.detach().numpy().copy(), mol.force.detach().numpy().copy(), mol.q.detach().numpy().copy()))
     fresh = {}
     for nm in set(inp["seq"]):
-        r = esh.run_named([nm], esh.settings(method=inp["method"], eps=1e-9, converger=inp.get("converger", [1]), analytical=inp.get("analytical")))
+        r = esh.run_named(nm.split("+"), esh.settings(method=inp["method"], eps=1e-9, converger=inp.get("converger", [1]), analytical=inp.get("analytical")))
         fresh[nm] = (r["Etot"], r["force"], r["q"])
     for nm, e, f, q in outs:
         d = max(float(np.abs(e - fresh[nm][0]).max()), float(np.abs(f - fresh[nm][1]).max()), float(np.abs(q - fresh[nm][2]).max()))
@@ -341,6 +342,8 @@ def gen_cases(ctx: Ctx):
         cases.append(("dict_reuse", {"a": "pm6sp_so2_anal", "b": "pm6sp_so2_anal"}))
     cases.append(("interleaved_backward", {"method_b": "PM3"}))
     cases.append(("object_reuse", {"method": "AM1", "seq": ["h2o", "ch4", "nh3", "h2o"], "converger": [1]}))
+    # the same driver for permuted batches: same shapes, same atom count, same multiset (even same sum) of atomic numbers, different order
+    cases.append(("object_reuse", {"method": str(rng.choice(["AM1", "PM3", "MNDO"])), "seq": [["co+n2", "n2+co", "co+n2"], ["ch4+co", "co+ch4", "ch4+co"]][ctx.seed % 2], "converger": [1]}))
     cases.append(("object_reuse", {"method": str(rng.choice(["PM3", "MNDO", "PM6_SP"])), "seq": ["ch2o", "h2o", "ch2o"], "converger": [[2], [0, 0.3]][int(rng.integers(0, 2))], "analytical": [True]}))
     return cases
 
